@@ -15,7 +15,7 @@ func ruleC16(prog *Program, rep *Report) {
 	ruleLossyKey(prog, rep)
 	ruleFieldLoopBounds(prog, rep, []string{"alt", "oj", "sen"})
 	ruleFreshTarget(prog, rep)
-	ruleFloatBits(prog, rep)
+	ruleFloatBits(prog, rep, "!jp")
 	ruleAppendRetain(prog, rep, "alt")
 	ruleEmbedParity(prog, rep) // Marshal reads promoted fields through the plan's offsets
 	rulePreRegister(prog, rep) // a type registered lazily makes the result depend on what was recomposed before
